@@ -14,8 +14,8 @@ Definition temporal_panics (E : env) : Prop :=
             \/ parse_timestamp E s = PPanic \/ parse_interval E s = PPanic.
 (** panics that come out of a temporal parser *)
 Definition pT (E : env) (p : panic) : Prop := (exists k, p = PTemporal k) /\ temporal_panics E.
-(** ... or out of the CHAR/VARCHAR/NAME normalisation of [Table::insert] *)
-Definition pData (E : env) (p : panic) : Prop := p = PSlice \/ p = PFmtWidth \/ pT E p.
+(** ... or out of the CHAR padding of [Table::insert] (format width above u16::MAX) *)
+Definition pData (E : env) (p : panic) : Prop := p = PFmtWidth \/ pT E p.
 
 Section Goodness.
   Variable E : env.
@@ -115,8 +115,10 @@ Section ExprGood.
   Notation goodX := (good (pT E) False allowS).
   Notation glt := (good_lt (pT E) False allowS).
   (** either overflow is tolerated, or [depth] plus the remaining fuel (= an upper bound of the levels
-      still to come) stays within the stack *)
-  Definition fits (depth : Z) (fuel : nat) : Prop := allowS \/ depth + Z.of_nat fuel <= stack_limit E + 1.
+      still to come) stays within the stack, or the stack holds one frame more than the depth guard admits *)
+  Definition fits (depth : Z) (fuel : nat) : Prop :=
+    allowS \/ depth + Z.of_nat fuel <= stack_limit E + 1
+    \/ (bin_max_expr_depth + 1 <= stack_limit E /\ depth <= bin_max_expr_depth + 1).
 
   Lemma strict_read_string' : strict read_string.
   Proof. apply (strict_read_string (pT E) False allowS). Qed.
@@ -156,8 +158,15 @@ Section ExprGood.
     induction fuel as [|f IH]; intros depth Hfit.
     - split; intros bs Hb; pose proof (blen_nonneg bs); change (Z.of_nat 0) with 0 in Hb; lia.
     - cbn [read_expr].
-      assert (Hfit' : fits (depth + 1) f) by (destruct Hfit as [Ha|Hd]; [left; exact Ha | right; lia]).
-      assert (Hso : stack_limit E < depth -> allowS) by (intros Hlt; destruct Hfit as [Ha|Hd]; [exact Ha | lia]).
+      assert (Hso : stack_limit E < depth -> allowS) by (intros Hlt; destruct Hfit as [Ha|[Hd|[Hd1 Hd2]]]; [exact Ha | lia | lia]).
+      destruct (Z.ltb_spec bin_max_expr_depth depth) as [Hdeep|Hshallow].
+      { (* beyond the depth guard: rejected without reading anything *)
+        split.
+        - intros bs Hb. destruct (Z.ltb_spec (stack_limit E) depth) as [Hlt|Hge];
+            [apply good_stop; [reflexivity | exact (Hso Hlt)] | apply good_fail].
+        - intros bs Hb. destruct (stack_limit E <? depth); [apply strict_stop; reflexivity | apply strict_fail]. }
+      assert (Hfit' : fits (depth + 1) f).
+      { destruct Hfit as [Ha|[Hd|[Hd1 Hd2]]]; [left; exact Ha | right; left; lia | right; right; split; lia]. }
       destruct (IH (depth + 1) Hfit') as [Gs Ss].
       set (sub := read_expr E f (depth + 1)) in *.
       set (F := Z.of_nat f) in *.
@@ -256,13 +265,16 @@ Section ExprGood.
         pose proof (g_consumes _ _ _ _ _ (Gbody tag r Hlt) _ _ _ Eb). lia.
   Qed.
 
-  (** on inputs shorter than [F]: fine when overflow is tolerated or the stack holds [F] levels *)
-  Lemma good_read_expression F : allowS \/ F <= stack_limit E -> glt F (read_expression E).
+  (** on inputs shorter than [F]: fine when overflow is tolerated, or the stack holds [F] levels, or it
+      holds one frame more than the depth guard admits *)
+  Lemma good_read_expression F :
+    allowS \/ F <= stack_limit E \/ bin_max_expr_depth + 1 <= stack_limit E -> glt F (read_expression E).
   Proof.
     intros HF bs Hb. unfold read_expression.
     assert (Hlt : blen bs < Z.of_nat (S (length bs))) by (unfold blen; lia).
     assert (Hfit : fits 1 (S (length bs))).
-    { destruct HF as [Ha|Hd]; [left; exact Ha | right; unfold blen in *; lia]. }
+    { destruct HF as [Ha|[Hd|Hd]]; [left; exact Ha | right; left; unfold blen in *; lia |].
+      right; right. split; [exact Hd|]. change bin_max_expr_depth with 128. lia. }
     destruct (proj1 (good_strict_read_expr (S (length bs)) 1 Hfit) bs Hlt) as [h1 h2 h3]. split; assumption.
   Qed.
 End ExprGood.
@@ -305,7 +317,7 @@ Section FileGood.
   Let sbl {A B} := @strict_bind_l (pT E) False allowS A B.
   (** the catalog decoders containing [read_expression] are stated on inputs shorter than [F] under [okF] *)
   Variable F : Z.
-  Hypothesis okF : allowS \/ F <= stack_limit E.
+  Hypothesis okF : allowS \/ F <= stack_limit E \/ bin_max_expr_depth + 1 <= stack_limit E.
 
   Lemma good_read_column : goodC read_column /\ strict read_column.
   Proof.
@@ -459,7 +471,7 @@ End FileGood.
 
 (** * data section: which columns can make [Table::insert] panic, which tables can make it spin *)
 Definition limited_ty (ty : dtype) : bool :=
-  match ty with TChar _ | TVarchar (Some _) | TName => true | _ => false end.
+  match ty with TChar _ => true | _ => false end.
 Definition limited_cols (cols : list column) : bool := existsb (fun c => limited_ty (c_type c)) cols.
 Definition limited (ts : list table) : bool := existsb (fun t => limited_cols (t_cols t)) ts.
 Definition zero_cols (ts : list table) : bool := existsb (fun t => (length (t_cols t) =? 0)%nat) ts.
@@ -468,9 +480,9 @@ Section DataGood.
   Variable E : env.
 
   Definition pCols (cols : list column) (p : panic) : Prop :=
-    pT E p \/ ((p = PSlice \/ p = PFmtWidth) /\ limited_cols cols = true).
+    pT E p \/ (p = PFmtWidth /\ limited_cols cols = true).
   Definition pTabs (ts : list table) (p : panic) : Prop :=
-    pT E p \/ ((p = PSlice \/ p = PFmtWidth) /\ limited ts = true).
+    pT E p \/ (p = PFmtWidth /\ limited ts = true).
 
   Lemma of_parse_panic {A} k (r : presult A) f p :
     of_parse k r f = NPanic p -> r = PPanic /\ p = PTemporal k.
@@ -479,7 +491,7 @@ Section DataGood.
   Lemma normalize_value_spec ty v t r :
     normalize_value E ty v = (t, r) ->
     Forall (ev_le 65535) t /\
-    (forall p, r = NPanic p -> pT E p \/ ((p = PSlice \/ p = PFmtWidth) /\ limited_ty ty = true)).
+    (forall p, r = NPanic p -> pT E p \/ (p = PFmtWidth /\ limited_ty ty = true)).
   Proof.
     intros H. unfold normalize_value, keep_if in H.
     destruct ty as [| | | |pr| | |[n|]|n| | |tz|tz|dbg|p1 s1|p1 s1| | | |bl|ud|];
@@ -489,8 +501,7 @@ Section DataGood.
                   end; discriminate).
     - (* varchar n *)
       destruct v as [[]|]; inversion H; subst; clear H; (split; [constructor|]); intros p Hp; try discriminate.
-      unfold truncate_varchar in Hp. destruct (n <? blen s); [|discriminate].
-      destruct (slice_to s n); inversion Hp; subst. right. auto.
+      unfold truncate_varchar in Hp. destruct (n <? blen s); discriminate.
     - (* char n *)
       destruct v as [[]|]; try (inversion H; subst; split; [constructor|]; intros p Hp; discriminate).
       unfold normalize_char in H.
@@ -509,8 +520,7 @@ Section DataGood.
         apply of_parse_panic in Hp; destruct Hp as [Hr ->]; left; (split; [eexists; reflexivity|]); exists s; auto.
     - (* name *)
       destruct v as [[]|]; inversion H; subst; clear H; (split; [constructor|]); intros p Hp; try discriminate.
-      unfold truncate_varchar in Hp. destruct (128 <? blen s); [|discriminate].
-      destruct (slice_to s 128); inversion Hp; subst. right. auto.
+      unfold truncate_varchar in Hp. destruct (128 <? blen s); discriminate.
   Qed.
 
   Definition out_spec {A} (cols : list column) (o : outcome A) : Prop :=
@@ -729,7 +739,8 @@ Proof. unfold load_binary, catalog_phase. symmetry. apply bind_assoc. Qed.
 (** the catalog phase on inputs shorter than [F]: never [Hang]; panics only from temporal parsers;
     [StackOverflow] only if it is tolerated or the stack is too small for [F] nesting levels *)
 Theorem catalog_phase_good_lt E allowS F :
-  allowS \/ F <= stack_limit E -> good_lt (pT E) False allowS F (catalog_phase E).
+  allowS \/ F <= stack_limit E \/ bin_max_expr_depth + 1 <= stack_limit E ->
+  good_lt (pT E) False allowS F (catalog_phase E).
 Proof.
   intros HF. unfold catalog_phase. apply good_lt_bind; [apply good_lt_of_good, good_read_header|].
   intros _. apply good_read_catalog. exact HF.
@@ -739,15 +750,16 @@ Theorem catalog_phase_good E : good (pT E) False True (catalog_phase E).
 Proof. apply good_of_good_lt. intros F. apply catalog_phase_good_lt. left. exact I. Qed.
 
 Lemma load_good_lt E allowS F :
-  allowS \/ F <= stack_limit E -> good_lt (pData E) False allowS F (load_binary E).
+  allowS \/ F <= stack_limit E \/ bin_max_expr_depth + 1 <= stack_limit E ->
+  good_lt (pData E) False allowS F (load_binary E).
 Proof.
   intros HF bs Hb.
   assert (G : good_at (pData E) False allowS (bind (catalog_phase E) (read_data E)) bs).
   { apply good_at_bind.
     - pose proof (catalog_phase_good_lt E allowS F HF bs Hb) as [g1 g2 g3]. split; auto.
-      intros t o Ho. specialize (g3 t o Ho). destruct o; cbn in *; auto. right. right. exact g3.
+      intros t o Ho. specialize (g3 t o Ho). destruct o; cbn in *; auto. right. exact g3.
     - intros t d r _. eapply good_weaken; [| | |apply good_read_data]; [|tauto|tauto].
-      intros p [Hp|[[->| ->] _]]; [right; right; exact Hp | left; reflexivity | right; left; reflexivity]. }
+      intros p [Hp|[-> _]]; [right; exact Hp | left; reflexivity]. }
   destruct G as [g1 g2 g3]. split; intros *; rewrite load_split; [apply g1 | apply g2 | apply g3].
 Qed.
 
@@ -758,7 +770,16 @@ Proof. apply good_of_good_lt. intros F. apply load_good_lt. left. exact I. Qed.
 Theorem no_stack_overflow_when_shallow E bs : blen bs < stack_limit E -> load_result E bs <> StackOverflow.
 Proof.
   intros Hb Hr. unfold load_result in Hr. destruct (load_binary E bs) as [t o] eqn:El. cbn [snd] in Hr. subst o.
-  assert (HF : False \/ blen bs + 1 <= stack_limit E) by (right; lia).
+  assert (HF : False \/ blen bs + 1 <= stack_limit E \/ bin_max_expr_depth + 1 <= stack_limit E) by (right; left; lia).
+  exact (g_tol _ _ _ _ _ (load_good_lt E False (blen bs + 1) HF bs ltac:(lia)) _ _ El).
+Qed.
+
+(** with the depth guard: a stack that holds one frame more than the guard admits is never overflowed,
+    by ANY byte string *)
+Theorem no_stack_overflow E bs : bin_max_expr_depth + 1 <= stack_limit E -> load_result E bs <> StackOverflow.
+Proof.
+  intros Hs Hr. unfold load_result in Hr. destruct (load_binary E bs) as [t o] eqn:El. cbn [snd] in Hr. subst o.
+  assert (HF : False \/ blen bs + 1 <= stack_limit E \/ bin_max_expr_depth + 1 <= stack_limit E) by (right; right; exact Hs).
   exact (g_tol _ _ _ _ _ (load_good_lt E False (blen bs + 1) HF bs ltac:(lia)) _ _ El).
 Qed.
 
@@ -788,7 +809,7 @@ Qed.
 (** which panics can come out of [load_binary], and from where *)
 Theorem load_panic_classified E bs t p :
   load_binary E bs = (t, Panic p) ->
-  pT E p \/ ((p = PSlice \/ p = PFmtWidth) /\
+  pT E p \/ (p = PFmtWidth /\
              exists t1 d r, catalog_phase E bs = (t1, Ok d r) /\ limited (d_tables d) = true).
 Proof.
   rewrite load_split. intros H.
@@ -801,7 +822,7 @@ Proof.
 Qed.
 
 (** the side-conditioned totality statement: with total temporal parsers, a file whose catalog has
-    no length-limited string column never panics *)
+    no CHAR(n) column never panics *)
 Theorem decode_total E bs :
   ~ temporal_panics E ->
   (forall t1 d r, catalog_phase E bs = (t1, Ok d r) -> limited (d_tables d) = false) ->
@@ -815,14 +836,17 @@ Qed.
 (** * witnesses: the unconditional no-panic statement is false of the faithful model *)
 Definition E0 : env := canon_env 1000 65536.
 
-(** [VARCHAR(1)] column, value "e-acute" (2 bytes): [&s[..1]] panics inside [Table::insert] *)
+(** [VARCHAR(1)] column, value "e-acute" (2 bytes): used to panic on [&s[..1]] inside [Table::insert];
+    the value is now cut at the last character boundary at or below byte 1 (the empty string) *)
 Definition file_varchar_slice : bytes :=
   write_header ++ w_u32 0 ++ w_u32 0 ++ w_u32 1
   ++ w_string (lit "T") ++ w_u32 1 ++ w_string (lit "A") ++ w_string (lit "VARCHAR(1)") ++ w_bool true
   ++ w_u32 0 ++ w_u32 0
   ++ w_string (lit "T") ++ w_u64 1 ++ [bin_tag_Varchar] ++ w_string [195; 169].
 
-Lemma decode_total_refuted_slice : load_result E0 file_varchar_slice = Panic PSlice.
+Lemma varchar_cut_on_boundary :
+  load_result E0 file_varchar_slice
+  = Ok (mkDb [] [] [mkTable (lit "T") [mkCol (lit "A") (TVarchar (Some 1)) true] [[BV (VVarchar [])]] 0] [] []) [].
 Proof. vm_compute. reflexivity. Qed.
 
 (** [CHAR(70000)] column and a shorter value: [format!("{:width$}")] with width > u16::MAX panics *)
@@ -950,7 +974,7 @@ Proof.
   unfold load_binary. rewrite (bind_run _ _ _ _ _ Hh). reflexivity.
 Qed.
 
-(** * stack overflow is reachable for EVERY stack limit with a file of proportional size *)
+(** * deep nesting is rejected by the depth guard (it used to overflow the stack) *)
 Lemma snd_bind_ok {A B} (m : dec A) (f : A -> dec B) bs t1 a r :
   m bs = (t1, Ok a r) -> snd (bind m f bs) = snd (f a r).
 Proof. intros H. rewrite (bind_ok _ _ _ _ _ _ H). destruct (f a r). reflexivity. Qed.
@@ -966,14 +990,17 @@ Fixpoint nest (k : nat) : bytes :=
 Lemma nest_length k : length (nest k) = (2 * k)%nat.
 Proof. induction k; cbn [nest length]; lia. Qed.
 
-Lemma nest_overflows E : forall k fuel depth rest,
-  (k <= fuel)%nat -> stack_limit E < depth + Z.of_nat k ->
-  snd (read_expr E fuel depth (nest k ++ rest)) = StackOverflow.
+Lemma nest_rejected E : forall k fuel depth rest,
+  (k <= fuel)%nat -> bin_max_expr_depth + 1 <= stack_limit E -> depth <= bin_max_expr_depth + 1 ->
+  bin_max_expr_depth < depth + Z.of_nat k ->
+  snd (read_expr E fuel depth (nest k ++ rest)) = Err EDepth.
 Proof.
-  induction k as [|k IH]; intros fuel depth rest Hf Hd.
-  - destruct fuel; cbn [read_expr]; destruct (Z.ltb_spec (stack_limit E) depth); try reflexivity; lia.
+  induction k as [|k IH]; intros fuel depth rest Hf Hs Hd Hk.
+  - destruct fuel; cbn [read_expr]; destruct (Z.ltb_spec (stack_limit E) depth); try lia;
+      destruct (Z.ltb_spec bin_max_expr_depth depth); try reflexivity; lia.
   - destruct fuel as [|f]; [lia|]. cbn [read_expr].
-    destruct (Z.ltb_spec (stack_limit E) depth); [reflexivity|].
+    destruct (Z.ltb_spec (stack_limit E) depth); [lia|].
+    destruct (Z.ltb_spec bin_max_expr_depth depth); [reflexivity|].
     cbn [nest app].
     rewrite (snd_bind_ok _ _ _ _ _ _ (read_u8_cons bin_expr_UnaryOp (0 :: nest k ++ rest))).
     change (bin_expr_UnaryOp =? bin_expr_Literal) with false.
@@ -1039,12 +1066,12 @@ Proof. apply (string_roundtrip [] rest); [reflexivity | vm_compute; reflexivity]
 Lemma u32_range_0 : 0 <= 0 < 2 ^ 32. Proof. split; [lia | reflexivity]. Qed.
 Lemma u32_range_1 : 0 <= 1 < 2 ^ 32. Proof. split; [lia | reflexivity]. Qed.
 
-Lemma trigger_overflows E k rest :
-  stack_limit E < 1 + Z.of_nat k ->
+Lemma trigger_rejected E k rest :
+  bin_max_expr_depth + 1 <= stack_limit E -> bin_max_expr_depth < 1 + Z.of_nat k ->
   snd (read_trigger E (w_string [] ++ w_string [] ++ [0] ++ [0] ++ [0] ++ w_bool true ++ nest k ++ rest))
-  = StackOverflow.
+  = Err EDepth.
 Proof.
-  intros Hk. unfold read_trigger.
+  intros Hs Hk. unfold read_trigger.
   rewrite (snd_bind_ok _ _ _ _ _ _ (empty_string_read _)).
   rewrite (snd_bind_ok _ _ _ _ _ _ (skip_ok _ _ _ _ _ (empty_string_read _))).
   cbn [app].
@@ -1058,59 +1085,54 @@ Proof.
   rewrite (snd_bind_ok _ _ _ _ _ _ Eev).
   rewrite (snd_bind_ok _ _ _ _ _ _ (read_enum_cons 3 bin_granularity_tags 0 _ eq_refl)).
   (* opt (read_expression E) on  true :: nest k ++ rest *)
-  assert (Eopt : snd (opt (read_expression E) (w_bool true ++ nest k ++ rest)) = StackOverflow).
+  assert (Eopt : snd (opt (read_expression E) (w_bool true ++ nest k ++ rest)) = Err EDepth).
   { unfold opt. rewrite (snd_bind_ok _ _ _ _ _ _ (bool_roundtrip true _)). unfold when_, read_expression.
-    apply nest_overflows; [|exact Hk].
+    apply nest_rejected; [| exact Hs | change bin_max_expr_depth with 128; lia | exact Hk].
     rewrite app_length, nest_length. lia. }
   destruct (opt (read_expression E) (w_bool true ++ nest k ++ rest)) as [t o] eqn:Eo. cbn [snd] in Eopt. subst o.
   rewrite (snd_bind_stop _ _ _ _ _ Eo eq_refl). reflexivity.
 Qed.
 
-Theorem stack_overflow_reachable E :
-  0 <= stack_limit E ->
-  let k := Z.to_nat (stack_limit E) in
-  load_result E (overflow_file k) = StackOverflow /\ blen (overflow_file k) = 2 * stack_limit E + 48.
+(** for every nesting depth beyond the guard, on every stack that holds one frame more than the guard
+    admits: the file is rejected with an error *)
+Theorem deep_nesting_rejected E k :
+  bin_max_expr_depth + 1 <= stack_limit E -> bin_max_expr_depth <= Z.of_nat k ->
+  load_result E (overflow_file k) = Err EDepth.
 Proof.
-  intros Hl k. split.
-  - unfold load_result, load_binary, overflow_file.
-    rewrite (snd_bind_ok _ _ _ _ _ _ (read_header_ok _)).
-    assert (Hc : snd (read_catalog E (w_u32 0 ++ w_u32 0 ++ w_u32 0 ++ w_u32 0 ++ w_u32 1
-                   ++ w_string [] ++ w_string [] ++ [0] ++ [0] ++ [0] ++ w_bool true ++ nest k)) = StackOverflow).
-    { unfold read_catalog.
-      rewrite (snd_bind_ok _ _ _ _ _ _ (u32_roundtrip 0 _ u32_range_0)).
-      rewrite (snd_bind_ok _ _ _ _ _ _ (iter_zero _ _ _)).
-      rewrite (snd_bind_ok _ _ _ _ _ _ (u32_roundtrip 0 _ u32_range_0)).
-      rewrite (snd_bind_ok _ _ _ _ _ _ (iter_zero _ _ _)).
-      rewrite (snd_bind_ok _ _ _ _ _ _ (u32_roundtrip 0 _ u32_range_0)).
-      rewrite (snd_bind_ok _ _ _ _ _ _ (loop_zero _ _)).
-      cbn [fold_out]. rewrite (snd_bind_ok _ _ _ _ _ _ (lift_ok _ _ _)).
-      rewrite (snd_bind_ok _ _ _ _ _ _ (u32_roundtrip 0 _ u32_range_0)).
-      rewrite (snd_bind_ok _ _ _ _ _ _ (loop_zero _ _)).
-      cbn [fold_out]. rewrite (snd_bind_ok _ _ _ _ _ _ (lift_ok _ _ _)).
-      rewrite (snd_bind_ok _ _ _ _ _ _ (u32_roundtrip 1 _ u32_range_1)).
-      (* the trigger loop: one iteration *)
-      match goal with |- snd (bind (iter 1 ?body []) _ ?bs) = _ =>
-        assert (Hit : snd (iter 1 body [] bs) = StackOverflow) end.
-      { unfold iter. cbn [iter_fuel]. change (1 <=? 0) with false. cbv iota.
-        pose proof (trigger_overflows E k [] ltac:(unfold k; rewrite Z2Nat.id by lia; lia)) as Ht.
-        rewrite app_nil_r in Ht.
-        destruct (read_trigger E (w_string [] ++ w_string [] ++ [0] ++ [0] ++ [0] ++ w_bool true ++ nest k))
-          as [tt0 ot] eqn:Etr. cbn [snd] in Ht. subst ot.
-        match goal with |- snd (bind (bind ?m ?f) ?g ?b) = _ => rewrite (bind_assoc m f g b) end.
-        rewrite (snd_bind_stop _ _ _ _ _ Etr eq_refl). reflexivity. }
-      match goal with |- snd (bind ?m ?f ?bs) = _ => destruct (m bs) as [ti oi] eqn:Ei end.
-      cbn [snd] in Hit. subst oi. rewrite (snd_bind_stop _ _ _ _ _ Ei eq_refl). reflexivity. }
-    match goal with |- snd (bind ?m ?f ?bs) = _ => destruct (m bs) as [tc oc] eqn:Ec end.
-    cbn [snd] in Hc. subst oc. rewrite (snd_bind_stop _ _ _ _ _ Ec eq_refl). reflexivity.
-  - unfold overflow_file. rewrite !blen_app. unfold blen at 13. rewrite nest_length.
-    change (blen write_header) with 16. change (blen (w_u32 0)) with 4. change (blen (w_u32 1)) with 4.
-    change (blen (w_string [])) with 4. change (blen [0]) with 1. change (blen (w_bool true)) with 1.
-    unfold k. rewrite Nat2Z.inj_mul, Z2Nat.id by lia. lia.
+  intros Hs Hk.
+  unfold load_result, load_binary, overflow_file.
+  rewrite (snd_bind_ok _ _ _ _ _ _ (read_header_ok _)).
+  assert (Hc : snd (read_catalog E (w_u32 0 ++ w_u32 0 ++ w_u32 0 ++ w_u32 0 ++ w_u32 1
+                 ++ w_string [] ++ w_string [] ++ [0] ++ [0] ++ [0] ++ w_bool true ++ nest k)) = Err EDepth).
+  { unfold read_catalog.
+    rewrite (snd_bind_ok _ _ _ _ _ _ (u32_roundtrip 0 _ u32_range_0)).
+    rewrite (snd_bind_ok _ _ _ _ _ _ (iter_zero _ _ _)).
+    rewrite (snd_bind_ok _ _ _ _ _ _ (u32_roundtrip 0 _ u32_range_0)).
+    rewrite (snd_bind_ok _ _ _ _ _ _ (iter_zero _ _ _)).
+    rewrite (snd_bind_ok _ _ _ _ _ _ (u32_roundtrip 0 _ u32_range_0)).
+    rewrite (snd_bind_ok _ _ _ _ _ _ (loop_zero _ _)).
+    cbn [fold_out]. rewrite (snd_bind_ok _ _ _ _ _ _ (lift_ok _ _ _)).
+    rewrite (snd_bind_ok _ _ _ _ _ _ (u32_roundtrip 0 _ u32_range_0)).
+    rewrite (snd_bind_ok _ _ _ _ _ _ (loop_zero _ _)).
+    cbn [fold_out]. rewrite (snd_bind_ok _ _ _ _ _ _ (lift_ok _ _ _)).
+    rewrite (snd_bind_ok _ _ _ _ _ _ (u32_roundtrip 1 _ u32_range_1)).
+    match goal with |- snd (bind (iter 1 ?body []) _ ?bs) = _ =>
+      assert (Hit : snd (iter 1 body [] bs) = Err EDepth) end.
+    { unfold iter. cbn [iter_fuel]. change (1 <=? 0) with false. cbv iota.
+      pose proof (trigger_rejected E k [] Hs ltac:(lia)) as Ht.
+      rewrite app_nil_r in Ht.
+      destruct (read_trigger E (w_string [] ++ w_string [] ++ [0] ++ [0] ++ [0] ++ w_bool true ++ nest k))
+        as [tt0 ot] eqn:Etr. cbn [snd] in Ht. subst ot.
+      match goal with |- snd (bind (bind ?m ?f) ?g ?b) = _ => rewrite (bind_assoc m f g b) end.
+      rewrite (snd_bind_stop _ _ _ _ _ Etr eq_refl). reflexivity. }
+    match goal with |- snd (bind ?m ?f ?bs) = _ => destruct (m bs) as [ti oi] eqn:Ei end.
+    cbn [snd] in Hit. subst oi. rewrite (snd_bind_stop _ _ _ _ _ Ei eq_refl). reflexivity. }
+  match goal with |- snd (bind ?m ?f ?bs) = _ => destruct (m bs) as [tc oc] eqn:Ec end.
+  cbn [snd] in Hc. subst oc. rewrite (snd_bind_stop _ _ _ _ _ Ec eq_refl). reflexivity.
 Qed.
 
-Example stack_overflow_reachable_example :
-  load_result (canon_env 3 65536) (overflow_file 3) = StackOverflow /\ blen (overflow_file 3) = 54.
-Proof. exact (stack_overflow_reachable (canon_env 3 65536) ltac:(cbn; lia)). Qed.
+Example deep_nesting_rejected_example : load_result E0 (overflow_file 5000) = Err EDepth.
+Proof. apply deep_nesting_rejected; [vm_compute; discriminate | vm_compute; discriminate]. Qed.
 
 (** * index contents after a load *)
 (** the database with every user index (re)built from the rows of its table: what
